@@ -45,6 +45,13 @@ def run_property(pid: str, tier: str) -> int:
         return code
     except AnalysisError as e:
         print(f"ANALYSIS-ERROR property={pid}: {e}")
+        if rep.violations:
+            # constructs already judged as violating stay reported: a violation takes precedence over the part of the
+            # analysis that could not be completed (often the violating edit is what made the next idiom unrecognisable)
+            rep.note(f"analysis aborted after the reported violation(s): {e}")
+            rep.rules = {rid: r for rid, r in rep.rules.items() if r["instances"] or r["violations"]}
+            code = rep.finish(prog, getattr(mod, "EXPLANATION", ""))
+            return code if code == 1 else 2
         return 2
     except Exception:
         print(f"ANALYSIS-ERROR property={pid}: internal error")
